@@ -30,7 +30,7 @@ pub fn role_ops(role: usize, slot: u32) -> Vec<Op> {
         0 => vec![Op::Dispatch(Act::new(100 * (slot + 1))), Op::Dispatch(Act::new(100 * (slot + 1) + 1))],
         1 => vec![Op::AddSub { id: b, gated: false, reads: true }, Op::Unsub(b)],
         2 => vec![Op::AddSelector { id: b + 1 }, Op::Unsub(b + 1)],
-        3 => vec![Op::Subscribed { id: b + 2, cap: 1, pol: Pol::Block, gated: false, reads: false }, Op::Unsub(b + 2)],
+        3 => vec![Op::Subscribed { id: b + 2, cap: 1, pol: Pol::Block, gated: false, reads: true }, Op::Unsub(b + 2)],
         4 => vec![Op::Subscribed { id: b + 3, cap: 1, pol: Pol::Oldest, gated: false, reads: true }],
         5 => vec![Op::GetState(b as i64), Op::GetMetrics(b as i64)],
         6 => vec![Op::Iter { id: b + 4, take: None, extra: 0, signal: false }],
